@@ -13,23 +13,38 @@ def run_cases(drv, cases, wd, name, budget=10, maxpop=330, hz=(2098, 12, 31)):
     lines = open(work).read().split('\n')
     out = {}
     start = 0
+    rnd_i = 0
     while start < len(cases):
-        p = subprocess.run([drv, str(budget)], input='\n'.join(lines[start:len(cases)]) + '\n', capture_output=True, text=True)
-        got = 0
-        for l in p.stdout.split('\n'):
-            if not l.strip():
-                continue
+        # the driver's output goes to a size-limited file and the process has a wall-clock limit: code under test that
+        # runs away (endless output, corrupted alarm) ends up as a crash/timeout record for the case it was working on
+        rnd_i += 1
+        of = f'{wd}/{name}.out.{rnd_i}'
+        rest = len(cases) - start
+        tmo = max(60, min(3600, rest * budget // 4 + 60))
+        with open(of, 'w') as fo:
+            p = subprocess.Popen(['bash', '-c', f'ulimit -f 2000000; exec {drv} {budget}'], stdin=subprocess.PIPE, stdout=fo, stderr=subprocess.DEVNULL, text=True)
             try:
-                r = json.loads(l)
-            except Exception:
-                break
-            out[r['id']] = r
-            got = r['id'] + 1
+                p.communicate('\n'.join(lines[start:len(cases)]) + '\n', timeout=tmo)
+                rc = p.returncode
+            except subprocess.TimeoutExpired:
+                p.kill(); p.communicate(); rc = -99
+        got = 0
+        with open(of) as fi:
+            for l in fi:
+                if not l.strip():
+                    continue
+                try:
+                    r = json.loads(l)
+                except Exception:
+                    break
+                out[r['id']] = r
+                got = r['id'] + 1
+        os.unlink(of)
         if got >= len(cases):
             break
-        # the driver died on case `got` (abort / uncatchable): record it and go on behind it
+        # the driver died on case `got` (abort / uncatchable / runaway): record it and go on behind it
         died = max(got, start)
-        out[died] = {'id': died, 'crash': p.returncode}
+        out[died] = {'id': died, 'crash': rc}
         start = died + 1
     recs = []
     for i, c in enumerate(cases):
